@@ -10,7 +10,7 @@ def showEv : Ev → String
   | .fit nu j rows => s!"F:{showNuis nu}:{j}:{showList toString rows}"
   | .pred nu j arm rows => s!"P:{showNuis nu}:{j}:{arm}:{showList toString rows}"
 
-def parseLists (s : String) : Option (List (List Nat)) :=
+def parseLists_C04 (s : String) : Option (List (List Nat)) :=
   if s == "" || s == "-" then some [] else (s.splitOn ";").mapM (parseList parseNat)
 
 /-- `crossfit double=<0|1> k=<n_splits> rows=<ids> picks=<draw_0;draw_1;…>`: the draws observed on the
@@ -20,7 +20,7 @@ def opCrossfit (a : Args) : Except String String := do
   let double ← need a "double" parseBool
   let k ← need a "k" parseNat
   let rows ← nats a "rows"
-  let picks ← need a "picks" parseLists
+  let picks ← need a "picks" parseLists_C04
   if k == 0 then throw "bad-arg:k"
   let m := rows.length / k
   let tab := picks.zipIdx.map (fun p => (rows.length - p.2 * m, p.1))
